@@ -275,13 +275,21 @@ theorem parseDatetimeL_canon (expanded : Bool) (y : Int) (m d hh mi ss : Nat) (m
   rw [dtOffset_canon tz h5]
   simp [rangeCheck]
 
-/-- date-only literals: the day's midnight, wrapped to `int64` (no range test on this path) -/
+/-- date-only literals: the day's midnight when it fits in `int64` milliseconds, an error otherwise (exact range
+    test on this path, never a wrapped value) -/
 theorem parseDatetimeL_dateonly (expanded : Bool) (y : Int) (m d : Nat)
     (hy : if expanded then y.natAbs ≤ 999999999 else 0 ≤ y ∧ y ≤ 9999) (hv : validDate y m d) :
     parseDatetimeL (yearText expanded y ++ ('-' :: (padL 2 m ++ ('-' :: (padL 2 d ++ []))))) =
-      .ok (wrap (daysFromCivil y m d * 86400000)) := by
+      if InI64 (daysFromCivil y m d * 86400000) then .ok (daysFromCivil y m d * 86400000) else .error .extDatetime := by
   unfold parseDatetimeL
   rw [dtDate_yearText expanded y m d _ hy hv]
-  simp
+  simp only [List.isEmpty_nil, if_true]
+  by_cases h : InI64 (daysFromCivil y m d * 86400000)
+  · rw [if_pos h]
+    unfold InI64 at h
+    rw [if_neg (by simp; omega)]
+  · rw [if_neg h]
+    unfold InI64 at h
+    rw [if_pos (by simp; omega)]
 
 end CedarGo.Scalars
